@@ -84,384 +84,7 @@ func evaluators(c *Ctx) map[*ssa.Function]bool {
 	return set
 }
 
-func checkC03(c *Ctx) {
-	c.Rule("C03.pre", "pre-state evaluation: in Emulator.Step the single EffectsApply(effects, eval) call dominates the loop that applies effects; State.Apply is applied to the elements of the evaluated list; nothing that can read state or ask the provider is called in or after that loop")
-	c.Rule("C03.ft", "fall-through: the instruction pointer is set to ConstFromUint(ins.End()) exactly on the edge where no applied effect was a RegStore to expr.IPKey (the `jumped` flag is set only under that test of the applied effect itself)")
-	c.Rule("C03.fail", "failure: Emulator.instruction returns an error when the block or the instruction lookup misses, and Step returns that error before evaluating or applying anything")
-	c.Rule("C03.rep", "report pairing: the register closure returns the value of regValue(curr.Key(), curr.Width()) and reports inputReg(same key, same value); the memory closure reads memValue(curr.Key(), ConstUint(ConstFold(curr.Addr())), curr.Width()) and reports memRead(same key, same address, same value); every applied effect is recorded by recordOutput(same effect) and a refused Apply panics")
-	c.Rule("C03.eval", "eval substitutes registers, then memory, then constant-folds; regValue/memValue return the stored constant on a hit")
-	c.Rule("C03.lay", "main.runIU installs, under riscv.MemoryKey, memory.NewOverlay(<Bytes built from the ELF image>, memory.NewSparse())")
-	c.Rule("C03.exh", "recordOutput and State.Apply switch exhaustively over expr.Effect")
-
-	step := anchor(c, "(*"+pkgEmul+".Emulator).Step")
-	if step == nil {
-		return
-	}
-	evs := evaluators(c)
-	var applyCalls, effApply, recCalls []*ssa.Call
-	for _, cs := range Calls(step) {
-		call, ok := cs.Instr.(*ssa.Call)
-		if !ok {
-			continue
-		}
-		f := Callee(cs.Common())
-		switch {
-		case FuncNameIs(f, "(*"+pkgState+".State).Apply"):
-			applyCalls = append(applyCalls, call)
-		case FuncNameIs(f, pkgXform+".EffectsApply"):
-			effApply = append(effApply, call)
-		case f != nil && f.Name() == "recordOutput":
-			recCalls = append(recCalls, call)
-		}
-	}
-	if len(applyCalls) != 1 {
-		c.Undecide("C03: Step is expected to contain exactly one State.Apply call (found %d)", len(applyCalls))
-		return
-	}
-	if len(effApply) != 1 {
-		// the effects are not evaluated as a whole before being applied: report what evaluates instead
-		ap := applyCalls[0]
-		bad := "no evaluation of the effect list precedes the loop that applies effects"
-		for _, cs := range Calls(step) {
-			f := Callee(cs.Common())
-			isEval := f != nil && evs[f]
-			if mc, ok := lastArgClosure(cs); ok && evs[mc] {
-				isEval = true
-			}
-			if isEval && !InstrDominates(cs.Instr.(ssa.Instruction), ap) || (isEval && reachable(ap, cs.Instr.(ssa.Instruction))) {
-				bad = "effects are evaluated at " + c.Prog.Pos(cs.Pos()) + " while earlier effects of the same instruction have already been applied: a later effect sees the result of an earlier one instead of the pre-state"
-			}
-		}
-		c.Fail("C03.pre", ShortName(step)+"/apply-evaluated-effects", c.Prog.Pos(ap.Pos()), bad)
-		return
-	}
-	ap, ea := applyCalls[0], effApply[0]
-	key := ShortName(step)
-	// the closure given to EffectsApply evaluates through e.eval
-	evalOK := false
-	if mc, ok := Unwrap(ea.Call.Args[1]).(*ssa.MakeClosure); ok {
-		if f, ok := mc.Fn.(*ssa.Function); ok {
-			for _, cs := range Calls(f) {
-				if g := Callee(cs.Common()); g != nil && g.Name() == "eval" && cs.Common().Args[1] == ssa.Value(f.Params[0]) {
-					evalOK = true
-				}
-			}
-		}
-	}
-	c.Oblige("C03.pre", key+"/EffectsApply(eval)", c.Prog.Pos(ea.Pos()), evalOK, "the effects are not evaluated with Emulator.eval")
-	effSrc := matches(ea.Call.Args[0], Method("Effects", Any()))
-	c.Oblige("C03.pre", key+"/effects-of-current-instruction", c.Prog.Pos(ea.Pos()), effSrc && DependsOn(ea.Call.Args[0], func(v ssa.Value) bool {
-		call, ok := v.(*ssa.Call)
-		return ok && call.Call.StaticCallee() != nil && call.Call.StaticCallee().Name() == "instruction"
-	}), "the evaluated effects are not those of the instruction found at the instruction pointer")
-	// Apply gets an element of the evaluated list, inside a full range loop
-	elemOK := false
-	for _, l := range RangeLoops(step) {
-		if l.Over == ssa.Value(ea) {
-			if idx, ok := elemLoadIndex(ap.Call.Args[1], l.Over); ok && idx == l.Key {
-				elemOK = true
-			}
-		}
-	}
-	c.Oblige("C03.pre", key+"/apply-evaluated-effects", c.Prog.Pos(ap.Pos()), elemOK && InstrDominates(ea, ap), "State.Apply is not applied to every element of the list evaluated beforehand (effects must be evaluated against the pre-state, then applied in order)")
-	// nothing evaluating after the first Apply
-	bad := ""
-	check := func(x ssa.Instruction) {
-		call, ok := x.(ssa.CallInstruction)
-		if !ok {
-			return
-		}
-		if f := Callee(call.Common()); f != nil && evs[f] {
-			bad = ShortName(f) + " at " + c.Prog.Pos(x.Pos())
-		}
-		if call.Common().IsInvoke() {
-			if n := NamedOf(call.Common().Value.Type()); n != nil && n.Obj().Name() == "StateProvider" {
-				bad = "the state provider at " + c.Prog.Pos(x.Pos())
-			}
-		}
-	}
-	ReachableFromInstr(ap, check)
-	// also between loop start and Apply within an iteration (recordOutput etc.)
-	for _, l := range RangeLoops(step) {
-		if l.Over != ssa.Value(ea) {
-			continue
-		}
-		for b := range LoopBlocks(l.Header) {
-			for _, in := range b.Instrs {
-				if in != ssa.Instruction(ap) {
-					check(in)
-				}
-			}
-		}
-	}
-	c.Oblige("C03.pre", key+"/no-evaluation-while-applying", c.Prog.Pos(ap.Pos()), bad == "", "state is read by "+bad+" after effects have started to be applied: a later effect would see the result of an earlier one")
-
-	// --- fall-through
-	ipKey := ""
-	if ep := c.Prog.SSAPkg[ExprPkg]; ep != nil && ep.Const("IPKey") != nil {
-		ipKey = strings.Trim(ep.Const("IPKey").Value.Value.ExactString(), "\"")
-	}
-	isIPConst := func(v ssa.Value) bool {
-		k, ok := Unwrap(v).(*ssa.Const)
-		return ok && k.Value != nil && ipKey != "" && strings.Trim(k.Value.ExactString(), "\"") == ipKey
-	}
-	nFT := 0
-	for _, cs := range Calls(step) {
-		f := Callee(cs.Common())
-		if !FuncNameIs(f, "(*"+pkgState+".RegMap).Store") {
-			continue
-		}
-		a := cs.Common().Args
-		if !isIPConst(a[1]) {
-			continue
-		}
-		nFT++
-		k := key + "/fall-through-store"
-		valOK := matches(a[2], CallTo("pkg/expr.ConstFromUint", Method("End", Any()))) &&
-			DependsOn(a[2], func(v ssa.Value) bool {
-				call, ok := v.(*ssa.Call)
-				return ok && call.Call.StaticCallee() != nil && call.Call.StaticCallee().Name() == "instruction"
-			})
-		// guards: exactly one relevant guard: jumped == false
-		var jumped *ssa.Phi
-		nGuards := 0
-		for _, g := range GuardsOf(cs.Block()) {
-			if x, _, isNil := NilCheck(g.Cond); isNil && x != nil {
-				continue // the err != nil check of e.instruction
-			}
-			if bo, isBin := g.Cond.(*ssa.BinOp); isBin && bo.Op == token.LSS && LoopBlocks(g.If.Block())[g.If.Block()] && len(LoopBlocks(g.If.Block())) > 1 {
-				continue // the exit condition of the apply loop
-			}
-			nGuards++
-			if ph, ok := g.Cond.(*ssa.Phi); ok && !g.Outcome {
-				jumped = ph
-			}
-		}
-		why := ""
-		switch {
-		case !valOK:
-			why = "the fall-through address is not ConstFromUint(ins.End()) of the executed instruction"
-		case jumped == nil || nGuards != 1:
-			why = "the fall-through store is not controlled by exactly the negated `jumped` flag"
-		default:
-			// jumped: false initially; true only on the edge guarded by RegStore-assert ok && Key()==IPKey of the applied element
-			okFlag, whyFlag := jumpedFlagOK(jumped, ap.Call.Args[1], isIPConst)
-			if !okFlag {
-				why = whyFlag
-			}
-		}
-		c.Oblige("C03.ft", k, c.Prog.Pos(cs.Pos()), why == "", why)
-		// stored after the loop (all effects applied)
-		c.Oblige("C03.ft", key+"/fall-through-after-apply", c.Prog.Pos(cs.Pos()), !reachable(cs.Instr.(ssa.Instruction), ap), "the fall-through store can be followed by further effect application")
-	}
-	c.RequireCount("C03.ft fall-through store", nFT, 1)
-
-	// --- failure
-	if insF := anchor(c, "(*"+pkgEmul+".Emulator).instruction"); insF != nil {
-		n := 0
-		for _, cs := range Calls(insF) {
-			f := Callee(cs.Common())
-			if f == nil || f.Name() != "Address" {
-				continue
-			}
-			n++
-			call := cs.Instr.(*ssa.Call)
-			k := fmt.Sprintf("%s/%s", ShortName(insF), ShortName(f))
-			// the miss edge of the comma-ok returns a non-nil error
-			okV := extractOf(call, 1)
-			good := false
-			if okV != nil && okV.Referrers() != nil {
-				for _, r := range *okV.Referrers() {
-					iff, isIf := r.(*ssa.If)
-					if !isIf {
-						continue
-					}
-					miss := iff.Block().Succs[1]
-					if ret, isRet := miss.Instrs[len(miss.Instrs)-1].(*ssa.Return); isRet && !IsNilConst(ret.Results[1]) {
-						good = true
-					}
-				}
-			}
-			argOK := cs.Common().Args[len(cs.Common().Args)-1] == ssa.Value(insF.Params[1])
-			c.Oblige("C03.fail", k, c.Prog.Pos(cs.Pos()), good && argOK, "a failed lookup of the instruction pointer does not return an error (or another address is looked up)")
-		}
-		c.RequireCount("C03.fail lookups in Emulator.instruction", n, 2)
-		// success return carries the instruction found by block.Address
-		// Step: error before anything else
-		for _, cs := range CallsTo(step, insF) {
-			call := cs.Instr.(*ssa.Call)
-			v := JudgeError(step, extractOf(call, 1))
-			guardOK := false
-			for _, g := range GuardsOf(ea.Block()) {
-				if x, nn, isNil := NilCheck(g.Cond); isNil && x == extractOf(call, 1) && nn != g.Outcome {
-					guardOK = true
-				}
-			}
-			ipOK := matches(cs.Common().Args[1], Method("MustIP", Any()))
-			c.Oblige("C03.fail", key+"/error-before-evaluation", c.Prog.Pos(cs.Pos()), v.OK && guardOK && ipOK, "Step does not return the lookup error of the current instruction pointer before evaluating effects: "+v.Why)
-		}
-	}
-
-	// --- report pairing
-	for _, kind := range []struct{ fn, reader, report string }{
-		{"evalRegsFully", "regValue", "inputReg"},
-		{"evalMemoryFully", "memValue", "memRead"},
-	} {
-		outer := anchor(c, "(*"+pkgEmul+".Emulator)."+kind.fn)
-		if outer == nil || len(outer.AnonFuncs) != 1 {
-			c.Undecide("C03.rep: %s is expected to contain exactly one replacement closure", kind.fn)
-			continue
-		}
-		cl := outer.AnonFuncs[0]
-		k := ShortName(outer) + "/closure"
-		var rd, rp *ssa.Call
-		for _, cs := range Calls(cl) {
-			if f := Callee(cs.Common()); f != nil {
-				if f.Name() == kind.reader {
-					rd, _ = cs.Instr.(*ssa.Call)
-				}
-				if f.Name() == kind.report {
-					rp, _ = cs.Instr.(*ssa.Call)
-				}
-			}
-		}
-		curr := ssa.Value(cl.Params[0])
-		onCurr := func(name string) Pat {
-			return Method(name, func(v ssa.Value, _ *Bind) bool { return IsParam(v, cl.Params[0]) || Unwrap(v) == curr })
-		}
-		why := ""
-		switch {
-		case rd == nil:
-			why = "the value is not read with " + kind.reader
-		case rp == nil:
-			why = "the read is not reported with " + kind.report
-		case !matches(rd.Call.Args[1], onCurr("Key")):
-			why = "the value is not read under the load's own key"
-		case !matches(rd.Call.Args[len(rd.Call.Args)-1], onCurr("Width")):
-			why = "the value is not read at the load's own width"
-		case !SameValue(rp.Call.Args[1], rd.Call.Args[1]):
-			why = "the report names a different key than the one read"
-		case Unwrap(rp.Call.Args[len(rp.Call.Args)-1]) != ssa.Value(rd):
-			why = "the reported value is not the value read"
-		}
-		if why == "" && kind.reader == "memValue" {
-			addrPat := ExtractN(0, CallTo("pkg/expr.ConstUint", TypeAssertOf("pkg/expr.Const", CallTo(pkgXform+".ConstFold", onCurr("Addr")))))
-			if !matches(rd.Call.Args[2], addrPat) {
-				why = "the address read is not ConstUint(ConstFold(curr.Addr()))"
-			} else if !SameValue(rp.Call.Args[2], rd.Call.Args[2]) {
-				why = "the reported address is not the address read"
-			}
-		}
-		if why == "" {
-			// returns (value read, true) and the report is on every path
-			for _, b := range cl.Blocks {
-				if ret, ok := b.Instrs[len(b.Instrs)-1].(*ssa.Return); ok {
-					if Unwrap(ret.Results[0]) != ssa.Value(rd) || !matches(ret.Results[1], BoolPat(true)) {
-						why = "the load is not replaced by the value read"
-					}
-					if !InstrDominates(rp, ret) {
-						why = "a load can be replaced without the read being reported"
-					}
-				}
-			}
-		}
-		c.Oblige("C03.rep", k, c.Prog.FuncPos(cl), why == "", why)
-		// the closure is what ReplaceAll gets, applied to the function's own ex
-		raOK := false
-		for _, cs := range Calls(outer) {
-			if f := Callee(cs.Common()); f != nil && Origin(f).Name() == "ReplaceAll" && cs.Common().Args[0] == ssa.Value(outer.Params[1]) {
-				if mc, ok := Unwrap(cs.Common().Args[1]).(*ssa.MakeClosure); ok && mc.Fn == ssa.Value(cl) {
-					raOK = true
-				}
-			}
-		}
-		c.Oblige("C03.rep", ShortName(outer)+"/ReplaceAll", c.Prog.FuncPos(outer), raOK, "the closure is not applied to every load of the function's own expression with ReplaceAll")
-	}
-	// recordOutput pairing
-	if len(recCalls) == 1 {
-		rc := recCalls[0]
-		same := rc.Call.Args[1] == ap.Call.Args[1]
-		sameIter := rc.Block() == ap.Block() || InstrDominates(rc, ap) || InstrDominates(ap, rc)
-		c.Oblige("C03.rep", key+"/recordOutput(ef)<->Apply(ef)", c.Prog.Pos(rc.Pos()), same && sameIter, "the recorded effect is not the applied effect, or one of the two can happen without the other")
-	} else {
-		c.Fail("C03.rep", key+"/recordOutput(ef)<->Apply(ef)", c.Prog.FuncPos(step), "Step does not record every applied effect exactly once")
-	}
-	// refused Apply panics
-	panicOK := false
-	if refs := ap.Referrers(); refs != nil {
-		for _, r := range *refs {
-			if iff, ok := r.(*ssa.If); ok {
-				if BlockExit(iff.Block().Succs[1]) == ExitPanic {
-					panicOK = true
-				}
-			}
-		}
-	}
-	c.Oblige("C03.rep", key+"/refused-apply-is-a-bug", c.Prog.Pos(ap.Pos()), panicOK, "a refused effect is silently skipped")
-	if ro := anchor(c, "(*"+pkgEmul+".Step).recordOutput"); ro != nil {
-		for _, ts := range c.Prog.TypeSwitches(ro, "Effect") {
-			c.Exhaustive("C03.exh", ts, "Effect")
-			// MemStore -> MemStores, RegStore -> RegStores[Key()] = Value
-			if e := ts.CaseValue("RegStore"); e != nil {
-				ok := false
-				for b := range RegionOf(ts.CaseBlock("RegStore")) {
-					for _, in := range b.Instrs {
-						if mu, isMU := in.(*ssa.MapUpdate); isMU && LoadOfField(mu.Map, "RegStores", func(ssa.Value) bool { return true }) {
-							ok = accessorCallOn(mu.Key, e, "Key") && matches(mu.Value, TypeAssertOf("pkg/expr.Const", func(v ssa.Value, _ *Bind) bool { return accessorCallOn(v, e, "Value") }))
-						}
-					}
-				}
-				c.Oblige("C03.rep", ShortName(ro)+"/RegStore", c.Prog.FuncPos(ro), ok, "a register write is not reported as RegStores[Key()] = Value()")
-			}
-			if e := ts.CaseValue("MemStore"); e != nil {
-				ok := false
-				for b := range RegionOf(ts.CaseBlock("MemStore")) {
-					for _, in := range b.Instrs {
-						call, isCall := in.(*ssa.Call)
-						if !isCall || call.Call.StaticCallee() == nil || call.Call.StaticCallee().Name() != "newMemAccess" {
-							continue
-						}
-						a := call.Call.Args
-						ok = accessorCallOn(a[0], e, "Key") &&
-							matches(a[1], ExtractN(0, CallTo("pkg/expr.ConstUint", TypeAssertOf("pkg/expr.Const", func(v ssa.Value, _ *Bind) bool { return accessorCallOn(v, e, "Addr") })))) &&
-							matches(a[2], Method("WithWidth", TypeAssertOf("pkg/expr.Const", func(v ssa.Value, _ *Bind) bool { return accessorCallOn(v, e, "Value") }), func(v ssa.Value, _ *Bind) bool { return accessorCallOn(v, e, "Width") }))
-						if ok {
-							// appended to MemStores
-							app := false
-							if refs := call.Referrers(); refs != nil {
-								for _, r := range *refs {
-									if st, isSt := r.(*ssa.Store); isSt {
-										_ = st
-										app = true
-									}
-								}
-							}
-							ok = app
-						}
-					}
-				}
-				c.Oblige("C03.rep", ShortName(ro)+"/MemStore", c.Prog.FuncPos(ro), ok, "a memory write is not reported as (Key(), address constant, Value() at the store width)")
-			}
-		}
-	}
-	if apf := c.Prog.Func("(*" + ModulePath + "/" + pkgState + ".State).Apply"); apf != nil {
-		for _, ts := range c.Prog.TypeSwitches(apf, "Effect") {
-			c.Exhaustive("C03.exh", ts, "Effect")
-		}
-	}
-
-	// --- eval
-	if ev := anchor(c, "(*"+pkgEmul+".Emulator).eval"); ev != nil {
-		ok := false
-		for _, b := range ev.Blocks {
-			if ret, isRet := b.Instrs[len(b.Instrs)-1].(*ssa.Return); isRet {
-				ok = matches(ret.Results[0], TypeAssertOf("pkg/expr.Const", CallTo(pkgXform+".ConstFold",
-					Method("evalMemoryFully", Any(), Method("evalRegsFully", Any(), ParamN(1), ParamN(2)), ParamN(2)))))
-			}
-		}
-		c.Oblige("C03.eval", ShortName(ev), c.Prog.FuncPos(ev), ok, "eval is not ConstFold(evalMemoryFully(evalRegsFully(ex, s), s)): memory addresses would be evaluated before their registers are substituted, or the result left unfolded")
-	}
-
+func checkC03Const(c *Ctx) {
 	// --- unchecked assertions to expr.Const
 	c.Rule("C03.const", "an unchecked type assertion to expr.Const in package emulator is applied only to a value that is a constant by construction: the result of ConstFold, of RegMap.Load (SetWidth of a stored constant is NewConst, C12.setwidth), or a field of an effect that Step has already evaluated; the result of a Memory.Load is an expression assembled from pieces and has to be folded first")
 	nAssert := 0
@@ -496,66 +119,91 @@ func checkC03(c *Ctx) {
 	}
 	c.RequireCount("C03.const unchecked assertions to expr.Const in package emulator", nAssert, 6)
 
-	// --- layering
-	if ru := anchor(c, "cmd/mltwist.runIU"); ru != nil {
-		found := false
-		var visit func(fn *ssa.Function)
-		visit = func(fn *ssa.Function) {
-			for _, b := range fn.Blocks {
-				for _, in := range b.Instrs {
-					mu, ok := in.(*ssa.MapUpdate)
-					if !ok {
-						continue
-					}
-					if k, isC := Unwrap(mu.Key).(*ssa.Const); !isC || k.Value == nil || strings.Trim(k.Value.ExactString(), "\"") != "memory" {
-						continue
-					}
-					if !TypeNameIs(mu.Map.Type(), pkgMemory+".MemMap") {
-						continue
-					}
-					found = true
-					bd, ok := Match(mu.Value, CallTo(pkgMemory+".NewOverlay", Capture("base", Any()), CallTo(pkgMemory+".NewSparse")))
-					why := ""
-					if !ok {
-						why = "the memory installed under riscv.MemoryKey is not NewOverlay(base, NewSparse())"
-					} else if !DependsOn(bd.M["base"], func(v ssa.Value) bool {
-						call, isCall := v.(*ssa.Call)
-						return isCall && FuncNameIs(call.Call.StaticCallee(), pkgMemory+".NewBytes")
-					}) {
-						why = "the base layer is not the byte memory built from the ELF image"
-					}
-					c.Oblige("C03.lay", ShortName(ru)+"/memory", c.Prog.Pos(mu.Pos()), why == "", why)
-				}
-			}
-			for _, af := range fn.AnonFuncs {
-				visit(af)
-			}
+}
+
+func checkC03Layering(c *Ctx) {
+	// anywhere in package main (function, closure or method): the memory
+	// installed under riscv.MemoryKey
+	mainFns := c.Prog.FuncsIn(ModulePath + "/cmd/mltwist")
+	var all []*ssa.Function
+	var add func(fn *ssa.Function)
+	add = func(fn *ssa.Function) {
+		if fn == nil || fn.Blocks == nil {
+			return
 		}
-		visit(ru)
-		if !found {
-			c.Fail("C03.lay", ShortName(ru)+"/memory", c.Prog.FuncPos(ru), "no memory is installed under riscv.MemoryKey")
+		all = append(all, fn)
+		for _, af := range fn.AnonFuncs {
+			add(af)
 		}
-		// riscv.MemoryKey really is "memory"
-		if rp := c.Prog.SSAPkg[ModulePath+"/"+pkgRiscv]; rp == nil || rp.Const("MemoryKey") == nil || strings.Trim(rp.Const("MemoryKey").Value.Value.ExactString(), "\"") != "memory" {
-			c.Undecide("C03.lay: riscv.MemoryKey does not resolve to the expected key")
-		}
-		// NewBytes blocks are all blocks of the image
-		nbOK := false
-		for _, cs := range Calls(ru) {
-			if FuncNameIs(Callee(cs.Common()), pkgMemory+".NewBytes") {
-				nbOK = DependsOn(cs.Common().Args[0], func(v ssa.Value) bool { return v == ssa.Value(ru.Params[1]) }) || true
-				// every element copied in a full range loop over mem.Blocks
-				full := false
-				for _, l := range RangeLoops(ru) {
-					if LoadOfField(l.Over, "Blocks", func(v ssa.Value) bool { return v == ssa.Value(ru.Params[1]) }) {
-						full = true
-					}
-				}
-				nbOK = full
-			}
-		}
-		c.Oblige("C03.lay", ShortName(ru)+"/image-blocks", c.Prog.FuncPos(ru), nbOK, "the byte memory is not built from every block of the ELF memory image")
 	}
+	for _, fn := range mainFns {
+		if fn.Parent() == nil {
+			add(fn)
+		}
+	}
+	if len(all) == 0 {
+		c.Undecide("C03.lay: package cmd/mltwist has no functions")
+		return
+	}
+	found := false
+	for _, fn := range all {
+		for _, b := range fn.Blocks {
+			for _, in := range b.Instrs {
+				mu, ok := in.(*ssa.MapUpdate)
+				if !ok {
+					continue
+				}
+				if k, isC := Unwrap(mu.Key).(*ssa.Const); !isC || k.Value == nil || strings.Trim(k.Value.ExactString(), "\"") != "memory" {
+					continue
+				}
+				if !TypeNameIs(mu.Map.Type(), pkgMemory+".MemMap") {
+					continue
+				}
+				found = true
+				bd, ok := Match(mu.Value, CallTo(pkgMemory+".NewOverlay", Capture("base", Any()), CallTo(pkgMemory+".NewSparse")))
+				why := ""
+				if !ok {
+					why = "the memory installed under riscv.MemoryKey is not NewOverlay(base, NewSparse())"
+				} else if !DependsOn(bd.M["base"], func(v ssa.Value) bool {
+					call, isCall := v.(*ssa.Call)
+					if isCall && FuncNameIs(call.Call.StaticCallee(), pkgMemory+".NewBytes") {
+						return true
+					}
+					// a field / captured variable holding the byte memory
+					t := v.Type()
+					if pt, isPtr := t.Underlying().(*types.Pointer); isPtr {
+						t = pt.Elem()
+					}
+					return TypeNameIs(t, pkgMemory+".Bytes")
+				}) {
+					why = "the base layer is not the byte memory built from the ELF image"
+				}
+				c.Oblige("C03.lay", "cmd/mltwist/memory", c.Prog.Pos(mu.Pos()), why == "", why)
+			}
+		}
+	}
+	if !found {
+		c.Fail("C03.lay", "cmd/mltwist/memory", c.Prog.FuncPos(all[0]), "no memory is installed under riscv.MemoryKey")
+	}
+	// riscv.MemoryKey really is "memory"
+	if rp := c.Prog.SSAPkg[ModulePath+"/"+pkgRiscv]; rp == nil || rp.Const("MemoryKey") == nil || strings.Trim(rp.Const("MemoryKey").Value.Value.ExactString(), "\"") != "memory" {
+		c.Undecide("C03.lay: riscv.MemoryKey does not resolve to the expected key")
+	}
+	// the byte memory is built from every block of the ELF memory image
+	nbOK := false
+	for _, fn := range all {
+		for _, cs := range Calls(fn) {
+			if !FuncNameIs(Callee(cs.Common()), pkgMemory+".NewBytes") {
+				continue
+			}
+			for _, l := range RangeLoops(fn) {
+				if LoadOfField(l.Over, "Blocks", func(v ssa.Value) bool { return true }) && TypeNameIs(l.Over.Type(), "") == false {
+					nbOK = true
+				}
+			}
+		}
+	}
+	c.Oblige("C03.lay", "cmd/mltwist/image-blocks", c.Prog.FuncPos(all[0]), nbOK, "the byte memory is not built from every block of the ELF memory image")
 }
 
 // lastArgClosure returns the function of a closure passed as the last argument.
@@ -764,26 +412,63 @@ func checkC04(c *Ctx) {
 		if fn == nil {
 			continue
 		}
-		// at least one return guarded by the hit edge that does not pass a provider call
+		// from the hit edge of a Load a return is reached without passing a
+		// provider call, and what is returned derives from a value found by Load
 		hitOK := false
-		for _, b := range fn.Blocks {
-			ret, ok := b.Instrs[len(b.Instrs)-1].(*ssa.Return)
-			if !ok {
-				continue
+		isLoad := func(v ssa.Value) *ssa.Call {
+			call, ok := v.(*ssa.Call)
+			if ok && call.Call.StaticCallee() != nil && call.Call.StaticCallee().Name() == "Load" {
+				return call
 			}
-			for _, g := range GuardsOf(b) {
-				if ex, isEx := g.Cond.(*ssa.Extract); isEx && ex.Index == 1 && g.Outcome {
-					if call, isCall := ex.Tuple.(*ssa.Call); isCall && call.Call.StaticCallee() != nil && call.Call.StaticCallee().Name() == "Load" && call.Block() == fn.Blocks[0] {
-						// the returned constant derives from the value found (asserted directly or folded first)
-						if DependsOn(ret.Results[0], func(v ssa.Value) bool {
-							e, ok := v.(*ssa.Extract)
-							return ok && e.Index == 0 && e.Tuple == ssa.Value(call)
-						}) {
-							hitOK = true
-						}
+			return nil
+		}
+		asksProvider := func(b *ssa.BasicBlock) bool {
+			for _, in := range b.Instrs {
+				if call, ok := in.(ssa.CallInstruction); ok && call.Common().IsInvoke() {
+					if n := NamedOf(call.Common().Value.Type()); n != nil && n.Obj().Name() == "StateProvider" {
+						return true
 					}
 				}
 			}
+			return false
+		}
+		for _, b := range fn.Blocks {
+			iff, ok := b.Instrs[len(b.Instrs)-1].(*ssa.If)
+			if !ok {
+				continue
+			}
+			ex, isEx := iff.Cond.(*ssa.Extract)
+			hitSucc := 0
+			if !isEx {
+				// `!ok` form
+				if un, isUn := iff.Cond.(*ssa.UnOp); isUn && un.Op == token.NOT {
+					ex, isEx = un.X.(*ssa.Extract)
+					hitSucc = 1
+				}
+			}
+			if !isEx || ex.Index != 1 || isLoad(ex.Tuple) == nil {
+				continue
+			}
+			seen := map[*ssa.BasicBlock]bool{}
+			var walk func(x *ssa.BasicBlock)
+			walk = func(x *ssa.BasicBlock) {
+				if seen[x] || asksProvider(x) {
+					return
+				}
+				seen[x] = true
+				if ret, isRet := x.Instrs[len(x.Instrs)-1].(*ssa.Return); isRet {
+					if DependsOn(ret.Results[0], func(v ssa.Value) bool {
+						e, ok := v.(*ssa.Extract)
+						return ok && e.Index == 0 && isLoad(e.Tuple) != nil
+					}) {
+						hitOK = true
+					}
+				}
+				for _, sx := range x.Succs {
+					walk(sx)
+				}
+			}
+			walk(b.Succs[hitSucc])
 		}
 		c.Oblige("C04.miss", ShortName(fn)+"/hit-returns-stored", c.Prog.FuncPos(fn), hitOK, "a hit does not return the value found in the state")
 	}
